@@ -167,6 +167,9 @@ func Flush() {
 	_ = os.WriteFile(out, b, 0o644)
 }
 
+// Cleanup, if set, runs before Main exits the process.
+var Cleanup func()
+
 // Main is the TestMain body shared by all props packages.
 func Main(m *testing.M) {
 	if os.Getenv("VERIF_LOG") == "" {
@@ -184,6 +187,9 @@ func Main(m *testing.M) {
 	}
 	code := m.Run()
 	Flush()
+	if Cleanup != nil {
+		Cleanup()
+	}
 	os.Exit(code)
 }
 
